@@ -39,6 +39,20 @@ def feq(c, r, v):
     return n0 * math.exp(-0.5 * v * v / Ti) / math.sqrt(2 * math.pi * Ti)
 
 
+def n0_ref(c, r):
+    """equilibrium density profile, coded from the documented formula (independent of pygyro.initialisation)"""
+    return c.CN0 * np.exp(-c.kN0 * c.deltaRN0 * np.tanh((np.asarray(r, dtype=float) - c.rp) / c.deltaRN0))
+
+
+def te_ref(c, r):
+    return c.CTe * np.exp(-c.kTe * c.deltaRTe * np.tanh((np.asarray(r, dtype=float) - c.rp) / c.deltaRTe))
+
+
+def dlogn0_ref(c, r):
+    """n0'(r)/n0(r) = -kN0 / cosh^2((r - rp)/deltaRN0)"""
+    return -c.kN0 / np.cosh((np.asarray(r, dtype=float) - c.rp) / c.deltaRN0) ** 2
+
+
 def lagrange_weights(nodes, x):
     """product formula; exact 0/1 when x is a node"""
     w = []
